@@ -222,21 +222,14 @@ Proof.
   - destruct (eval_pos fx pl root p) as [[]|]; try discriminate. inversion H. exact I.
 Qed.
 
-(* the fragment of ProofsRewriteFull, as an executable check: no pdl.result statement in the rewrite, no empty
-   replacement list, replace-with-operation only for a root with declared result types, and every match-part value
-   the rewrite reads is reached by the match tree *)
-Definition frag_b (rootpat : op_pat) (s : stmt) : bool :=
-  match s with
-  | SResult _ _ _ => false
-  | SReplaceVals [] => false
-  | SReplaceOp _ => match op_rtys rootpat with [] => false | _ => true end
-  | _ => true
-  end.
+(* the fragment of ProofsRewriteFull, as an executable check: a pdl.result in the rewrite only of a new operation whose
+   declared result types cover the index, no empty replacement list, replace-with-operation only for a root with
+   declared result types, and every match-part value the rewrite reads is reached by the match tree *)
 Definition key_reached (inp : inputs) (k : key) : bool :=
   match k with KLocal _ => true | _ => match klookup inp k with Some _ => true | None => false end end.
 Definition rewrite_frag_ok (fx : fixes) (P : pattern) : bool :=
   let '(preds, inp) := extract fx P in
-  forallb (fun s => frag_b (p_root P) s && forallb (key_reached inp) (stmt_keys s)) (p_rw P).
+  frag_all (p_root P) [] (p_rw P) && forallb (fun s => forallb (key_reached inp) (stmt_keys s)) (p_rw P).
 
 Theorem rewrite_equiv_full : forall fx P pl x c,
   fx_erase fx = true -> fx_range fx = true -> fx_infer fx = true ->
@@ -304,24 +297,21 @@ Proof.
   { intros k v Hk. destruct (klookup inp k) as [p|] eqn:Ei.
     - eapply eval_pos_norange. eapply (R_val _ _ _ _ _ _ HR); eassumption.
     - exfalso. eapply (R_sub _ _ _ _ _ _ HR k); [congruence | exact Ei]. }
+  apply andb_true_iff in Hfrag. destruct Hfrag as [Hfa Hfrag].
   rewrite <- Hd. symmetry.
   apply (stmts_full fx P inp (p_root P) (o_id x) e (bind_args 0 args) (rg_used st) Her Hra Hin Hnoloc' Hinj' HArg' HCa' HCt' Hroot' HB'
-                    (p_rw P) rg_init st code e (bind_args 0 args) pl).
+                    (p_rw P) [] rg_init st code e (bind_args 0 args) pl).
   - constructor; cbn [rg_vals rg_used rg_nargs rg_ntmp rg_init]; try discriminate; try reflexivity.
     + intros j v H. rewrite bind_args_tmp in H. discriminate.
     + intros p [].
   - exact HNR.
   - exact Eg.
   - apply pre_refl.
-  - intros Hnil x' Hx'. rewrite Hx in Hx'. inversion Hx'; subst x'.
-    pose proof (root_rtys _ _ _ _ _ _ Em) as Hz. rewrite Hnil in Hz. unfold zlen in Hz. simpl in Hz.
-    destruct (o_rtys x); [reflexivity | simpl in Hz; lia].
-  - apply Forall_forall. intros s Hs. rewrite forallb_forall in Hfrag. specialize (Hfrag _ Hs).
-    apply andb_true_iff in Hfrag. destruct Hfrag as [Hfb _]. destruct s; simpl in *; try exact I; try discriminate.
-    + destruct vs; [discriminate | exact I].
-    + destruct (op_rtys (p_root P)); [discriminate | discriminate].
+  - intros x' Hx'. rewrite Hx in Hx'. inversion Hx'; subst x'. symmetry. eapply root_rtys. exact Em.
+  - apply TY_nil.
+  - exact Hfa.
   - intros s Hs k Hk Hnl'. rewrite forallb_forall in Hfrag. specialize (Hfrag _ Hs).
-    apply andb_true_iff in Hfrag. destruct Hfrag as [_ Hrb]. rewrite forallb_forall in Hrb. specialize (Hrb _ Hk).
+    rename Hfrag into Hrb. rewrite forallb_forall in Hrb. specialize (Hrb _ Hk).
     unfold key_reached in Hrb. destruct k; try (destruct (klookup inp _); [discriminate | discriminate Hrb]).
     exfalso. apply Hnl'. exact I.
 Qed.
